@@ -135,8 +135,8 @@ def main():
         "version": 1,
         "setup_cmd": "./run.sh --setup",
         "hooks": {
-            "guard": "cargo feature `verif-hooks` of crate yash-env (off by default)",
-            "enable": "the harness manifest /verif/harness/Cargo.toml lists yash-env with features [\"test-helper\", \"verif-hooks\"] once the hook commit exists; run-time switch yash_env::verif_hooks::set_preemption(true) is used only by the schedule-exploring checks",
+            "guard": "cargo feature `verif-hooks` of the crates yash-env and yash-syntax (off by default; the latter only forwards lexer rewind counts to the former)",
+            "enable": "the harness manifest /verif/harness/Cargo.toml lists yash-env with features [\"test-helper\", \"verif-hooks\"] and yash-syntax with features [\"verif-hooks\"]; run-time switch yash_env::verif_hooks::set_preemption(true) is used only by the schedule-exploring checks",
             "baseline_off_cmd": "cd /repo && (cargo nextest run --workspace --no-fail-fast --tool-config-file pb:/w/lib/nextest.toml --profile pb --test-threads 8 --offline || cargo test --workspace --no-fail-fast --offline)",
             "source_commits": hooks_commits,
             "add_only": True,
